@@ -205,6 +205,13 @@ fn build_matrix() -> Vec<Cell> {
                 for (block, pre) in [("SET FIELDS", "SET FIELDS"), ("SET ATTRIBUTES", "SET ATTRIBUTES"), ("SET FACET", "SET FACET \"F\"")] {
                     push("UPDATE", block, kind, name, sp, format!("UPDATE {target} {pre} {body} {wh}"));
                 }
+                // the same block as the SECOND (third) action of the statement: an UPDATE may carry
+                // several blocks, also of one kind, and every one of them is an assignment
+                // (seeded change C16-7: the guard looked at the first SET FIELDS block only)
+                push("UPDATE", "SET FIELDS after SET FIELDS", kind, name, sp, format!("UPDATE {target} SET FIELDS {{ zz_note: \"x\" }} SET FIELDS {body} {wh}"));
+                push("UPDATE", "SET FIELDS after SET ATTRIBUTES", kind, name, sp, format!("UPDATE {target} SET ATTRIBUTES {{ zz_a: 1 }} SET FIELDS {body} {wh}"));
+                push("UPDATE", "SET ATTRIBUTES after two blocks", kind, name, sp, format!("UPDATE {target} SET FIELDS {{ zz_note: \"x\" }} SET ATTRIBUTES {{ zz_a: 1 }} SET ATTRIBUTES {body} {wh}"));
+                push("UPDATE", "SET FACET after SET FACET", kind, name, sp, format!("UPDATE {target} SET FACET \"G\" {{ zz_f: 1 }} SET FACET \"F\" {body} {wh}"));
                 // the retention block takes no update expression reading other state; keep the same spellings
                 push("SET RETENTION", "retention block", kind, name, sp, format!("SET RETENTION {target} {body} {wh}"));
             }
@@ -1117,6 +1124,9 @@ fn sanity(st: &mut Stats) {
         ("engine-owned-field-assigned", "retention", one(json!({"SetRetention": {"target": {"Param": "x"}, "values": [["space_seq", {"Value": {"Number": 7}}]], "where_clauses": null, "limit": null, "expect_version": null}}))),
         ("engine-owned-field-assigned", "transition", one(json!({"TransitionActivity": {"target": {"Param": "x"}, "to": {"Literal": {"String": "completed"}}, "set_fields": [["_system", {"Value": "Null"}]], "set_structural": null, "expect_state": null}}))),
         ("immutable-payload-rewritten", "assertion", update(assertion_where.clone(), json!([{"SetFields": [["confidence", {"Value": {"Number": 0.1}}]]}]))),
+        ("immutable-payload-rewritten", "assertion-second-block", update(assertion_where.clone(), json!([{"SetFields": [["zz_note", {"Value": {"Number": 1}}]]}, {"SetFields": [["confidence", {"Value": {"Number": 0.1}}]]}]))),
+        ("immutable-payload-rewritten", "evidence-third-block", update(json!([{"Evidence": {"variable": "t", "matcher": {}}}]), json!([{"SetAttributes": [["zz_a", {"Value": {"Number": 1}}]]}, {"SetFields": [["zz_note", {"Value": {"Number": 1}}]]}, {"SetFields": [["payload", {"Param": "p"}]]}]))),
+        ("engine-owned-field-assigned", "update-second-block", update(json!([{"Concept": {"variable": "t", "matcher": {}}}]), json!([{"SetFields": [["zz_note", {"Value": {"Number": 1}}]]}, {"SetFields": [["_system", {"Value": {"Number": 1}}]]}]))),
         ("immutable-payload-rewritten", "evidence", update(json!([{"Evidence": {"variable": "t", "matcher": {}}}]), json!([{"SetFields": [["payload", {"Param": "p"}]]}]))),
         ("immutable-payload-rewritten", "proposition", update(json!([{"Proposition": {"variable": "t", "matcher": {"Id": {"Param": "p"}}}}]), json!([{"SetFields": [["object", {"Param": "p"}]]}]))),
         ("immutable-payload-rewritten", "union", update(json!([{"Concept": {"variable": "t", "matcher": {}}}, {"Union": [{"Assertion": {"variable": "t", "matcher": {}}}]}]), json!([{"SetFields": [["stance", {"Param": "p"}]]}]))),
